@@ -105,6 +105,54 @@ theorem argmaxRange_congr (f g : Nat → α) : ∀ (len i b : Nat),
     · exact argmaxRange_congr f g len (i + 1) i hl hi
     · exact argmaxRange_congr f g len (i + 1) b hl hb
 
+theorem pickMem_argminL : PickMem (α := α) argminL := by
+  intro f l hl
+  cases l with
+  | nil => exact absurd rfl hl
+  | cons s l =>
+    have : ∀ (l : List Nat) (b : Nat), argminFrom f l b = b ∨ argminFrom f l b ∈ l := by
+      intro l
+      induction l with
+      | nil => intro b; left; rfl
+      | cons x l ih =>
+        intro b
+        simp only [argminFrom]
+        split
+        · rcases ih x with h | h
+          · right; rw [h]; simp
+          · right; simp [h]
+        · rcases ih b with h | h
+          · left; exact h
+          · right; simp [h]
+    simp only [argminL]
+    rcases this l s with h | h
+    · rw [h]; simp
+    · simp [h]
+
+theorem pickMem_argmaxL : PickMem (α := α) argmaxL := by
+  intro f l hl
+  cases l with
+  | nil => exact absurd rfl hl
+  | cons s l =>
+    have : ∀ (l : List Nat) (b : Nat), argmaxFrom f l b = b ∨ argmaxFrom f l b ∈ l := by
+      intro l
+      induction l with
+      | nil => intro b; left; rfl
+      | cons x l ih =>
+        intro b
+        simp only [argmaxFrom]
+        split
+        · rcases ih x with h | h
+          · right; rw [h]; simp
+          · right; simp [h]
+        · rcases ih b with h | h
+          · left; exact h
+          · right; simp [h]
+    simp only [argmaxL]
+    rcases this l s with h | h
+    · rw [h]; simp
+    · simp [h]
+
 end picks
 
 /-! ### PELT -/
